@@ -25,6 +25,11 @@ def main():
         i = args.index("--tier")
         tier = args[i + 1]
         del args[i: i + 2]
+    outname = "RESULTS.md"
+    if "--out" in args:
+        i = args.index("--out")
+        outname = args[i + 1]
+        del args[i: i + 2]
     allchecks = "--all-checks" in args
     args = [a for a in args if not a.startswith("--")]
     sdir = os.path.join(HERE, "seeded")
@@ -53,7 +58,7 @@ def main():
                 print(sid, c, verdict, "; ".join(sigs)[:200], flush=True)
         finally:
             shutil.rmtree(tmp, ignore_errors=True)
-    with open(os.path.join(sdir, "RESULTS.md"), "w") as f:
+    with open(os.path.join(sdir, outname), "w") as f:
         f.write(f"# Seeded changes vs checks (tier {tier})\n\n| seeded change | breaks | check run | outcome | violation signatures |\n|---|---|---|---|---|\n")
         for r in rows:
             f.write("| " + " | ".join(str(x) for x in r) + " |\n")
